@@ -77,6 +77,7 @@ type Obligation struct {
 	allTimeouts bool
 	Retried     bool // discharged only by the calm retry after timeouts
 	CaseSplit   int  // discharged as a complete case analysis over this many cases (0: single query)
+	Cover       bool // reachability check: expects sat, only a refutation (unsat) counts
 }
 
 type inputSym struct {
@@ -686,6 +687,23 @@ func (x *Exec) oblName(kind, label string) string {
 }
 
 // oblige records a proof obligation and then assumes the goal.
+// cover records a reachability check: the path condition at this point must be
+// satisfiable (an unsatisfiable one means everything proved behind this point
+// is proved vacuously). kind is "cover-assert" (an alarm when refuted) or
+// "cover-return" (reported in the evidence).
+func (x *Exec) cover(st *State, kind, label string, at ast.Node) {
+	if x.spec > 0 || st.dead() {
+		return
+	}
+	o := &Obligation{Name: x.oblName(kind, label), Kind: kind, Func: x.top.Name(), Goal: tFalse, ex: x, Expect: "sat", Cover: true, Vacuity: true}
+	if at != nil {
+		o.Pos = x.p.relPos(at)
+	}
+	o.PC = append([]*Term(nil), st.pc...)
+	o.Axioms = x.axioms[:len(x.axioms):len(x.axioms)]
+	x.obls = append(x.obls, o)
+}
+
 func (x *Exec) oblige(st *State, kind, label string, goal *Term, at ast.Node) {
 	if x.spec > 0 {
 		return
